@@ -1,6 +1,7 @@
 (* Property C05 — transport replay protection with a bounded reordering window.
    Only statements, closed by `exact`, with Print Assumptions. *)
-From WG Require Import Base.Prelude Gen.Constants Replay.Model Replay.Spec Replay.Refine Replay.Hist.
+From Coq Require Import String.
+From WG Require Import Base.Prelude Gen.Constants Replay.Model Replay.Spec Replay.Refine Replay.Hist Replay.Ast Gen.ReplayAst Replay.AstProofs.
 Local Open Scope N_scope.
 
 (* The constants the property text names, as the code has them now. *)
@@ -60,3 +61,34 @@ Example C05_nonvacuous :
                    Validate 100000 100000]
   = [true; true; false; true; true; false; true; true; false; false].
 Proof. vm_compute. reflexivity. Qed.
+
+(* THE TIE TO THE SOURCE (translator harness/cmd/replayast, rerun on every check):
+   Gen.ReplayAst.validate_body / reset_body are the bodies of
+   Filter.ValidateCounter and Filter.Reset of replay/replay.go as terms of
+   the deep-embedded language of Replay/Ast.v (uint64 arithmetic wrapping mod
+   2^64, the for loop on fuel, ring indices checked).  For ALL filters and
+   uint64 arguments the interpreted source equals the model, one call ... *)
+Theorem C05_source_validate_is_the_model : forall f c l,
+  last f < 2 ^ 64 -> length (ring f) = 128%nat -> c < 2 ^ 64 -> l < 2 ^ 64 ->
+  run_validate validate_body f c l = Some (validate f c l).
+Proof. intros f c l H1 H2. apply ast_validate_correct0. split; assumption. Qed.
+Print Assumptions C05_source_validate_is_the_model.
+
+Theorem C05_source_reset_is_the_model : forall f,
+  last f < 2 ^ 64 -> length (ring f) = 128%nat -> Forall (fun b => b < 2 ^ 64) (ring f) ->
+  run_reset reset_body f = Some (reset f).
+Proof. intros f H1 H2 H3. apply ast_reset_correct. repeat split; assumption. Qed.
+Print Assumptions C05_source_reset_is_the_model.
+
+(* ... and every history: interpreting the source never stops (no ring index out
+   of range -- no Go panic --, the loop ends, no untranslated construct is
+   reached) and gives the verdicts of the SET SPECIFICATION of the property. *)
+Theorem C05_source_refines_spec : forall ops : list op,
+  Forall op_ok ops ->
+  exists f, ast_run empty ops = Some (f, outs sstep sempty ops).
+Proof.
+  intros ops H. rewrite (ast_run_from_empty ops H).
+  exists (fst (run step empty ops)).
+  rewrite <- filter_refines_spec. unfold outs. destruct (run step empty ops); reflexivity.
+Qed.
+Print Assumptions C05_source_refines_spec.
